@@ -42,6 +42,13 @@ JsonOK == LET r == ParseLine(Ev.bytes)
                      /\ Clause("start", IsMilli(Get(o, KB)) /\ Near(Milli(Get(o, KB)), Ev.start_ms))
                      /\ Clause("duration", IsMilli(Get(o, KD)) /\ Near(Milli(Get(o, KD)), (Ev.nfr * 1000) \div Ev.frate))
                      /\ Clause("probability", IsMilli(Get(o, KP)) /\ Near(Milli(Get(o, KP)), Ev.pm))
+                     \* at alignment levels the listed words are the dictionary words of the segmentation of THIS
+                     \* result, with its frames (not those of an alignment computed for something else)
+                     /\ Clause("aligned-words-are-segments",
+                               Ev.level >= 1 => /\ Len(Ev.view) = Len(Ev.dsegs)
+                                                /\ \A i \in DOMAIN Ev.view : /\ Ev.view[i].t = Ev.dsegs[i].t
+                                                                             /\ Ev.view[i].s = Ev.dsegs[i].s
+                                                                             /\ Ev.view[i].d = Ev.dsegs[i].d)
                      /\ Clause("list-length", Get(o, KW).t = "a" /\ Len(Get(o, KW).m) = Len(Ev.view))
                      /\ Clause("entries", \A i \in DOMAIN Ev.view :
                                              i \in DOMAIN Get(o, KW).m =>
